@@ -1,6 +1,8 @@
 SPECIFICATION Spec
 CONSTANTS
   Part = "shapes"
+  BoolSize = "q"
+  AndMerge = "fixed"
   MaxArms = 1
 INVARIANT LogInOrder
 INVARIANT ChainOK
